@@ -75,7 +75,7 @@ def run(ctx, facts):
     else:
         ctx.violation("COUNTER", FY + "next", "wrap-around", hirq.loc(nx), "the cursor is reset inside next other than by the leading `if lastidx >= m { lastidx = 0 }`: %s" % (why or "%d zero writes" % len(zero)))
     for name, fn in methods.items():
-        if name in ("next", "reset", "new"):
+        if name in ("next", "reset", "new") or inline.absorbed(facts, FY + name):
             continue
         for (w, f, i) in writes_to_self(fn, "lastidx"):
             ctx.violation("COUNTER", FY + name, "cursor written", hirq.loc(w), "%s writes the cursor" % name)
